@@ -11,7 +11,9 @@
      fit    r = u - (p x + q)                 loss = mean r^2
      inv    r = u - kap * x                   loss = mean r^2      (learns kap)
      pen    penalty (kap - c)^2               (ParameterCondition)
-     adapt  r = u - (p x + q)                 loss = mean lam_i r^2 (AdaptiveWeightsCondition, lam ascends)            *)
+     adapt  r = u - (p x + q)                 loss = mean lam_i r^2 (AdaptiveWeightsCondition, lam ascends)
+     data   r = u - (p x + q)                 loss = mean r^2 over ONE mini-batch (DataCondition on a PointsDataLoader with batch size bs,
+                                              not shuffled): the k-th evaluation of the condition sees batch k mod ceil(n / bs)    *)
 EXTENDS Integers, Sequences
 \* ---------------- rationals <<num, den>>, den > 0, normalised
 RECURSIVE GCD(_, _)
@@ -28,18 +30,23 @@ MulI(p, n) == Mul(p, R(n))
 DivI(p, n) == IF n < 0 THEN Mul(<<-p[1], p[2]>>, <<1, -n>>) ELSE Mul(p, <<1, n>>)
 RECURSIVE SumR(_)
 SumR(s) == IF s = <<>> THEN R(0) ELSE Add(Head(s), SumR(Tail(s)))
-Fits(q) == AbsI(q[1]) < 4096 /\ q[2] < 4096                 \* magnitude budget of 32-bit integers
+Fits(q) == AbsI(q[1]) < 16384 /\ q[2] < 16384                 \* magnitude budget of 32-bit integers
 
 \* ---------------- gradients of one condition (as rationals), at state st
 U(st, x) == Add(MulI(st.a, x), st.b)
 Resid(c, st, i) == LET x == c.xs[i] IN
                    IF c.kind = "inv" THEN Sub(U(st, x), MulI(st.kap, x)) ELSE Sub(U(st, x), R(c.p * x + c.q))
+\* the points a condition uses at state st: all of them, or (data) the mini-batch number k mod (number of batches)
+NB(c) == (Len(c.xs) + c.bs - 1) \div c.bs
+Lo(c, st) == IF c.kind = "data" THEN (st.k % NB(c)) * c.bs + 1 ELSE 1
+Hi(c, st) == IF c.kind = "data" THEN (IF Lo(c, st) + c.bs - 1 > Len(c.xs) THEN Len(c.xs) ELSE Lo(c, st) + c.bs - 1) ELSE Len(c.xs)
 N(c) == Len(c.xs)
+NAt(c, st) == Hi(c, st) - Lo(c, st) + 1
 Lam(c, st, i) == IF c.kind = "adapt" THEN st.lam[i] ELSE R(1)
 GradA(c, st) == IF c.kind = "pen" THEN R(0)
-                ELSE DivI(MulI(SumR([i \in 1..N(c) |-> Mul(Lam(c, st, i), MulI(Resid(c, st, i), c.xs[i]))]), 2), N(c))
+                ELSE DivI(MulI(SumR([i \in 1..NAt(c, st) |-> LET ii == Lo(c, st) + i - 1 IN Mul(Lam(c, st, ii), MulI(Resid(c, st, ii), c.xs[ii]))]), 2), NAt(c, st))
 GradB(c, st) == IF c.kind = "pen" THEN R(0)
-                ELSE DivI(MulI(SumR([i \in 1..N(c) |-> Mul(Lam(c, st, i), Resid(c, st, i))]), 2), N(c))
+                ELSE DivI(MulI(SumR([i \in 1..NAt(c, st) |-> LET ii == Lo(c, st) + i - 1 IN Mul(Lam(c, st, ii), Resid(c, st, ii))]), 2), NAt(c, st))
 GradK(c, st) == IF c.kind = "pen" THEN MulI(Sub(st.kap, R(c.c)), 2)
                 ELSE IF c.kind = "inv" THEN DivI(MulI(SumR([i \in 1..N(c) |-> MulI(Resid(c, st, i), -c.xs[i])]), 2), N(c))
                 ELSE R(0)
